@@ -297,7 +297,10 @@ def main(argv):
         bounded.append(br)
     for br in bounded:
         bname = br["name"]
-        for v in br.get("violations", [])[:3]:
+        n_reported = 0
+        for v in br.get("violations", []):
+            if n_reported >= 3:         # (known findings never use up the places of new violations)
+                break
             d = os.path.join(ROOT, "replay", prop)
             os.makedirs(d, exist_ok=True)
             path = os.path.join(d, safe("bounded_" + br["name"] + "_" + v.get("id", "x")) + ".json")
@@ -308,6 +311,7 @@ def main(argv):
             if k:
                 known_hits.append(k)
             else:
+                n_reported += 1
                 violations.append((obname + (" (native sampling)" if v.get("obligation") else ""), path, ""))
     # ------------------------------------------------------------------ verdict + evidence
     wall = time.time() - t0
